@@ -102,7 +102,14 @@ Definition show_snap (s : list (string * option val)) : string :=
 
 (* The world: answers events, keeps a log (most recent first). *)
 Definition wstate := list string.
-Definition handle (tbl : list opinfo) (tname : option string) (e : ev) (st : wstate) : option val * wstate :=
+(* entries made on a thread other than "main" carry the thread's name: name@entry *)
+Definition tag (tname : option string) (entry : string) : string :=
+  match tname with
+  | Some n => if String.eqb n "main" then entry else n +++ "@" +++ entry
+  | None => "?@" +++ entry
+  end.
+
+Definition handle0 (tbl : list opinfo) (tname : option string) (e : ev) (st : wstate) : option val * wstate :=
   match e with
   | EEval o sn =>
       match lookup_op tbl (flat o) with
@@ -130,6 +137,15 @@ Definition handle (tbl : list opinfo) (tname : option string) (e : ev) (st : wst
   | EThreadName => (Some (match tname with Some n => VSome (VStr n) | None => VNone end), st)
   end.
 
+Fixpoint tag_new (tname : option string) (n : nat) (l : list string) : list string :=
+  match n, l with
+  | S n', x :: r => tag tname x :: tag_new tname n' r
+  | _, _ => l
+  end.
+Definition handle (tbl : list opinfo) (tname : option string) (e : ev) (st : wstate) : option val * wstate :=
+  let '(r, st') := handle0 tbl tname e st in
+  (r, tag_new tname (List.length st' - List.length st) st').
+
 (* Sequential runner: a spawned thread runs to completion at its spawn point (one legal schedule). *)
 Inductive outcome := OVal (v : val) | OPanic (why : N).
 
@@ -144,7 +160,7 @@ Fixpoint run (tbl : list opinfo) (tname : option string) (threads : list (option
       | (None, st') => (OPanic P_USER, st', threads)
       end
   | Spawn name t k =>
-      let '(o, st', threads') := run tbl (Some name) threads t (("T+" +++ name) :: st) in
+      let '(o, st', threads') := run tbl (Some name) threads t st in
       let res := match o with OVal v => Some v | OPanic _ => None end in
       run tbl tname (threads' ++ [res]) (k (List.length threads')) st'
   | Join h k =>
@@ -154,12 +170,29 @@ Fixpoint run (tbl : list opinfo) (tname : option string) (threads : list (option
       end
   end.
 
+(* canonical form of a log made by several threads: entries grouped by thread (stable), threads
+   ordered by name; the main thread's entries (no tag) come first *)
+Fixpoint tag_of (s : string) : string :=
+  match s with
+  | EmptyString => ""
+  | String c r => if Ascii.eqb c "@"%char then "" else String c (tag_of r)
+  end.
+Definition has_tag (s : string) : bool :=
+  (fix go (s : string) : bool := match s with EmptyString => false | String c r => Ascii.eqb c "@"%char || go r end) s.
+Definition thread_of (s : string) : string := if has_tag s then tag_of s else "".
+Fixpoint insert_by_thread (x : string) (l : list string) : list string :=
+  match l with
+  | [] => [x]
+  | y :: r => if negb (String.ltb (thread_of y) (thread_of x)) then x :: l else y :: insert_by_thread x r
+  end.
+Definition canon_log (l : list string) : list string := fold_right insert_by_thread [] l.
+
 Definition show_outcome (o : outcome) : string :=
   match o with OVal v => show v | OPanic n => "PANIC" end.
 
 Definition run_show (tbl : list opinfo) (tname : option string) (c : comp val) : list string :=
   let '(o, st, _) := run tbl tname [] c [] in
-  show_outcome o :: rev st.
+  show_outcome o :: canon_log (rev st).
 (* 0 = value; otherwise the panic code (1, 2, 6 mean the model could not give the program a meaning) *)
 Definition run_code (tbl : list opinfo) (tname : option string) (c : comp val) : N :=
   let '(o, _, _) := run tbl tname [] c [] in
